@@ -26,41 +26,110 @@ abbrev DOLLAR : UInt8 := 36
 abbrev LBRACE : UInt8 := 123
 abbrev RBRACE : UInt8 := 125
 
+/-- One step of the scan in `interpolate_inner`: the text up to the next `$`,
+    then `{name}`; or the reason the reference is malformed. -/
+inductive Scan where
+  | lit (s : Bytes)
+  | bad (e : Err)
+  | ref (pre name tail : Bytes)
+  deriving DecidableEq, Repr
+
+def scan (s : Bytes) : Scan :=
+  match splitAt1 DOLLAR s with
+  | (pre, none) => .lit pre
+  | (_, some []) => .bad .expectedLBrace
+  | (pre, some (c :: rest)) =>
+    if c ≠ LBRACE then .bad .expectedLBrace
+    else
+      match splitAt1 RBRACE rest with
+      | (_, none) => .bad .expectedRBrace
+      | (name, some tail) => if name = [] then .bad .emptyName else .ref pre name tail
+
+theorem scan_ref (s pre name tail : Bytes) (h : scan s = .ref pre name tail) :
+    s = pre ++ DOLLAR :: LBRACE :: name ++ RBRACE :: tail ∧ DOLLAR ∉ pre ∧ RBRACE ∉ name ∧ name ≠ [] := by
+  unfold scan at h
+  split at h
+  · simp at h
+  · simp at h
+  · rename_i pre' c rest h1
+    split at h
+    · simp at h
+    · rename_i hc
+      simp only [ne_eq, Decidable.not_not] at hc
+      split at h
+      · simp at h
+      · rename_i name' tail' h2
+        split at h
+        · simp at h
+        · rename_i hne
+          simp only [Scan.ref.injEq] at h
+          obtain ⟨rfl, rfl, rfl⟩ := h
+          have a1 := splitAt1_some DOLLAR s pre' (c :: rest) h1
+          have a2 := splitAt1_some RBRACE rest name' tail' h2
+          subst hc
+          refine ⟨?_, a1.2, a2.2, hne⟩
+          rw [a1.1, a2.1]
+          simp
+
+theorem scan_ref_length (s pre name tail : Bytes) (h : scan s = .ref pre name tail) :
+    tail.length < s.length := by
+  have := (scan_ref s pre name tail h).1
+  subst this
+  simp
+  omega
+
+theorem scan_of_ref (pre name tail : Bytes) (h1 : DOLLAR ∉ pre) (h2 : RBRACE ∉ name) (h3 : name ≠ []) :
+    scan (pre ++ DOLLAR :: LBRACE :: name ++ RBRACE :: tail) = .ref pre name tail := by
+  unfold scan
+  have e : pre ++ DOLLAR :: LBRACE :: name ++ RBRACE :: tail = pre ++ DOLLAR :: (LBRACE :: (name ++ RBRACE :: tail)) := by simp
+  rw [e, splitAt1_append_of_not_mem DOLLAR pre _ h1]
+  simp only [ne_eq, not_true_eq_false, if_false]
+  rw [splitAt1_append_of_not_mem RBRACE name tail h2]
+  simp [h3]
+
+theorem scan_lit (s p : Bytes) (h : scan s = .lit p) : p = s ∧ DOLLAR ∉ s := by
+  unfold scan at h
+  split at h
+  · rename_i pre h1
+    simp only [Scan.lit.injEq] at h
+    subst h
+    have h2 : (splitAt1 DOLLAR s).2 = none := by rw [h1]
+    exact ⟨by have := splitAt1_none_fst DOLLAR s h2; rw [h1] at this; exact this,
+      (splitAt1_none DOLLAR s).mp h2⟩
+  · simp at h
+  · split at h
+    · simp at h
+    · split at h
+      · simp at h
+      · split at h <;> simp at h
+
+theorem scan_of_lit (s : Bytes) (h : DOLLAR ∉ s) : scan s = .lit s := by
+  unfold scan
+  rw [splitAt1_of_not_mem DOLLAR s h]
+
 /-- `interpolate_inner`, parametrised by what `interpolate` does with a
     looked-up value (`rec`).  `ign` is INTERPOLATE_IGNORE_LOOKUP_ERRORS. -/
 def inner (lookup : Lookup) (ign : Bool) (rec : Bytes → Except Err Bytes) (s : Bytes) :
     Except Err Bytes :=
-  match h : splitAt1 DOLLAR s with
-  | (pre, none) => .ok pre
-  | (pre, some rest) =>
-    match rest with
-    | [] => .error .expectedLBrace
-    | c :: rest' =>
-      if c ≠ LBRACE then .error .expectedLBrace
-      else
-        match h2 : splitAt1 RBRACE rest' with
-        | (_, none) => .error .expectedRBrace
-        | (name, some tail) =>
-          have : tail.length < s.length := by
-            have h1 := splitAt1_length DOLLAR s (c :: rest') pre h
-            have h3 := splitAt1_length RBRACE rest' tail name h2
-            simp at h1; omega
-          if name = [] then .error .emptyName
-          else
-            match lookup name with
-            | none =>
-              if ign then
-                match inner lookup ign rec tail with
-                | .ok b => .ok (pre ++ DOLLAR :: LBRACE :: name ++ RBRACE :: b)
-                | .error e => .error e
-              else .error (.unknown name)
-            | some v =>
-              match rec v with
-              | .error e => .error e
-              | .ok a =>
-                match inner lookup ign rec tail with
-                | .ok b => .ok (pre ++ a ++ b)
-                | .error e => .error e
+  match h : scan s with
+  | .lit p => .ok p
+  | .bad e => .error e
+  | .ref pre name tail =>
+    have : tail.length < s.length := scan_ref_length s pre name tail h
+    match lookup name with
+    | none =>
+      if ign then
+        match inner lookup ign rec tail with
+        | .ok b => .ok (pre ++ DOLLAR :: LBRACE :: name ++ RBRACE :: b)
+        | .error e => .error e
+      else .error (.unknown name)
+    | some v =>
+      match rec v with
+      | .error e => .error e
+      | .ok a =>
+        match inner lookup ign rec tail with
+        | .ok b => .ok (pre ++ a ++ b)
+        | .error e => .error e
 termination_by s.length
 
 /-- `interpolate` with `d` levels of nesting still allowed.  The C code fails
